@@ -1,12 +1,29 @@
 (* C14 - flushed file data survives a power cut.
-   The region classification is Spec/Regions.v (extracted and evaluated on every device write of the
-   implementation).  Theorems so far: the frame of image writes (nothing outside a write's range changes). *)
+   Proved: the device-level shape of File::flush (entry write-back iff dirty, then a device flush, as the last call)
+   and that the flushed entry bytes survive every later log of writes that do not overlap them - in particular every
+   prefix of such a log (the power-cut model).  That later operations on OTHER files never overlap the file's entry,
+   table entries and clusters is the confinement property C11; the end-to-end statement is checked on the
+   implementation for every crash point by the independent decoder (tools/props/c14.py). *)
 From Coq Require Import NArith List.
-From FatVerif Require Import Model.Base Spec.Image Proofs.ImageProofs.
+From FatVerif Require Import Model.Base Model.FlushM Spec.Image Proofs.ImageProofs Proofs.FlushProofs.
 Open Scope N_scope.
 
 Theorem C14_write_frame : forall bs im off o,
   (o < off \/ off + N.of_nat (length bs) <= o) -> img_get (img_write im off bs) o = img_get im o.
 Proof. exact img_write_outside. Qed.
 
+Theorem C14_flush_shape : forall dirty pos entry,
+  exists ws, fst (file_flush dirty pos entry) = ws ++ [DFlush] /\
+             (forall e, In e ws -> exists o b, e = DWrite o b) /\ snd (file_flush dirty pos entry) = false /\
+             (dirty = true -> ws = [DWrite pos entry]) /\ (dirty = false -> ws = []).
+Proof. exact flush_shape. Qed.
+
+Theorem C14_flushed_entry_survives : forall im pos entry later,
+  (forall o b, In (DWrite o b) later -> o + N.of_nat (length b) <= pos \/ pos + N.of_nat (length entry) <= o) ->
+  forall i, (i < length entry)%nat ->
+  img_get (apply_events im (fst (file_flush true pos entry) ++ later)) (pos + N.of_nat i) = nth i entry 0.
+Proof. exact flushed_entry_survives. Qed.
+
 Print Assumptions C14_write_frame.
+Print Assumptions C14_flush_shape.
+Print Assumptions C14_flushed_entry_survives.
